@@ -221,7 +221,7 @@ def run(ctx):
         "current value is itself out of bounds",
         "initial() runs under a guard of %d random.choice calls; a guard hit is inconclusive, not a failure" % GUARD,
     ]
-    k, n, side = (8, 500, 5) if ctx.quick() else (16, 3000, 7)
+    k, n, side = (16, 500, 5) if ctx.quick() else (16, 3000, 7)
     for r in pmap(shard, [(ctx.seed * 1000 + i, n, side) for i in range(k)]):
         ctx.stats.merge(r)
     cl = ctx.stats.classes
